@@ -96,7 +96,8 @@ type rec struct {
 	CkSc    int      `json:"ck_sc"`
 	Stored  int      `json:"stored"`
 	Pred    []string `json:"pred"`
-	DD      bool     `json:"dd"` // exported C2S and S2C keys are distinct (and agree on both ends)
+	DD      bool     `json:"dd"`  // exported C2S and S2C keys are distinct (and agree on both ends)
+	Cok     bool     `json:"cok"` // cookies stored (client) / fields counted (server) are exactly the authenticated ones
 }
 
 const (
@@ -166,6 +167,7 @@ type world struct {
 	uid2     []byte
 	rng      *rand.Rand
 	abandons int
+	learned  int // watchdog hangs on inputs with a zero Length field
 }
 
 func (w *world) sealCookie(s session, key ntske.Key) []byte {
@@ -217,6 +219,7 @@ type packet struct {
 	tckey  int
 	tcsc   int
 	cookie []byte
+	sealed [][]byte // resp: the cookies the server sealed into the authenticator
 }
 
 func cookieSegs(region string, fi, at int) []seg {
@@ -325,7 +328,8 @@ func (w *world) build(role string, nf int, kind string) *packet {
 			p.uid = id
 			nts.EncodePacket(&buf, &pkt)
 		}); pn != nil {
-			w.t.Fatalf("encoder panicked for a request with %d fields (pool %d): %v", nf, len(pool), pn)
+			// a request this tree's encoder cannot produce (C11's subject): no packet, class skipped
+			return nil
 		}
 		p.b = buf
 		p.cookie = pool[0]
@@ -363,9 +367,13 @@ func (w *world) build(role string, nf int, kind string) *packet {
 			pkt := nts.NewResponsePacket(cookies, key, ans)
 			nts.EncodePacket(&buf, &pkt)
 		}); pn != nil {
-			w.t.Fatalf("encoder panicked for a response with %d cookies: %v", nf, pn)
+			return nil
+		}
+		if len(buf) != 48+4+uidLen+40+nf*(4+cookieLen) {
+			return nil // the encoder dropped or cut cookies (C11's subject): not a shape of this run
 		}
 		p.b = buf
+		p.sealed = cookies
 		p.lay = append(headSegs(), authSegs(48+4+uidLen, nf*(4+cookieLen))...)
 	default:
 		w.t.Fatalf("role %q", role)
@@ -376,6 +384,7 @@ func (w *world) build(role string, nf int, kind string) *packet {
 
 // ---------------------------------------------------------------- receivers
 type result struct {
+	cok          bool
 	out, why     string
 	opened       bool
 	ckKey, ckSc  int
@@ -423,7 +432,7 @@ func (w *world) openCookie(cookie []byte, r *result) (ntske.ServerCookie, bool) 
 	return sc, true
 }
 
-func (w *world) serverRecv(b []byte, r *result) {
+func (w *world) serverRecv(b []byte, nf int, r *result) {
 	var pkt nts.Packet
 	if err := nts.DecodePacket(&pkt, b); err != nil {
 		r.out, r.why = "rejected", "decode"
@@ -438,6 +447,8 @@ func (w *world) serverRecv(b []byte, r *result) {
 	if !ok {
 		return
 	}
+	// what server_ip.go will issue cookies for
+	r.cok = len(pkt.Cookies)+len(pkt.CookiePlaceholders) == nf
 	if err := nts.ProcessRequest(b, sc.C2S, &pkt); err != nil {
 		r.out, r.why = "rejected", "process-request"
 		return
@@ -445,9 +456,18 @@ func (w *world) serverRecv(b []byte, r *result) {
 	r.out, r.why = "accepted", "-"
 }
 
-func (w *world) clientRecv(b []byte, key, reqID []byte, r *result) {
+func (w *world) clientRecv(b []byte, key, reqID []byte, sealed [][]byte, r *result) {
 	var f ntske.Fetcher
-	defer func() { r.stored = len(f.VerifData().Cookie) }()
+	defer func() {
+		st := f.VerifData().Cookie
+		r.stored = len(st)
+		if r.out == "accepted" && sealed != nil {
+			r.cok = len(st) == len(sealed)
+			for i := 0; r.cok && i < len(st); i++ {
+				r.cok = bytes.Equal(st[i], sealed[i])
+			}
+		}
+	}()
 	var pkt nts.Packet
 	if err := nts.DecodePacket(&pkt, b); err != nil {
 		r.out, r.why = "rejected", "decode"
@@ -478,16 +498,35 @@ func wouldLoop(b []byte) bool {
 	return false
 }
 
+// suspect: some extension field anywhere in the datagram (also behind the authenticator) has Length 0.
+// The tree as it is stops at the authenticator; a tree that does not would loop there.
+func suspect(b []byte) bool {
+	pos := ntpLen
+	for len(b)-pos >= 28 {
+		l := u16(b, pos+2)
+		if l == 0 {
+			return true
+		}
+		pos += l
+	}
+	return false
+}
+
 // receive runs the real receiving path on a private copy of the datagram.
 func (w *world) receive(p *packet, mutated []byte) result {
 	b := make([]byte, len(mutated))
 	copy(b, mutated)
 	if p.role != "cookie" && wouldLoop(b) {
-		return result{out: "hang", why: "decode-loop", pre: true}
+		return result{out: "hang", why: "decode-loop", pre: true, cok: true}
+	}
+	susp := p.role != "cookie" && suspect(b)
+	if susp && w.learned >= 3 {
+		// this build has shown three times that it never returns on such inputs: do not start more spinning goroutines
+		return result{out: "hang", why: "decode-loop-learned", pre: true, cok: true}
 	}
 	done := make(chan result, 1)
 	go func() {
-		var r result
+		r := result{cok: true}
 		defer func() {
 			if x := recover(); x != nil {
 				r.out, r.why = "panic", fmt.Sprint(x)
@@ -499,26 +538,35 @@ func (w *world) receive(p *packet, mutated []byte) result {
 		}()
 		switch p.role {
 		case "req":
-			w.serverRecv(b, &r)
+			w.serverRecv(b, p.nf, &r)
 		case "resp":
-			w.clientRecv(b, w.sess[1].s2c, p.uid, &r)
+			w.clientRecv(b, w.sess[1].s2c, p.uid, p.sealed, &r)
 		case "cookie":
 			if _, ok := w.openCookie(b, &r); ok {
 				r.out, r.why = "accepted", "-"
 			}
 		}
 	}()
-	tm := time.NewTimer(10 * time.Second)
+	wait := 20 * time.Second
+	if susp {
+		wait = 3 * time.Second
+	}
+	tm := time.NewTimer(wait)
 	defer tm.Stop()
 	select {
 	case r := <-done:
 		return r
 	case <-tm.C:
-		w.abandons++
-		if w.abandons > 3 {
-			w.t.Fatalf("more than 3 calls did not return within 10 s; giving up")
+		// the call is abandoned (its goroutine keeps spinning until the process ends)
+		if susp {
+			w.learned++
+		} else {
+			w.abandons++
+			if w.abandons > 3 {
+				w.t.Fatalf("more than 3 calls on inputs without a zero Length field did not return within 20 s; giving up")
+			}
 		}
-		return result{out: "hang", why: "watchdog", timeout: true}
+		return result{out: "hang", why: "watchdog", timeout: true, cok: true}
 	}
 }
 
@@ -661,7 +709,8 @@ func (d *driver) observe(c tcase, pk int, p *packet, m []byte, off, bit, val int
 	}
 	d.out.Emit(rec{Role: c.Role, Nf: c.Nf, Kind: c.Kind, Region: c.Region, Fi: c.Fi, Sub: c.Sub, Pk: pk, Off: off, Bit: bit, Val: val,
 		Out: r.out, Why: r.why, Pre: r.pre, Touched: touched(p, m), Key: p.keyOK, Dir: p.dirOK, Uid: uidIntact(p, m),
-		TCkey: tc, TCsc: tcsc, Opened: r.opened, CkKey: r.ckKey, CkSc: r.ckSc, Stored: r.stored, Pred: c.Pred, DD: true})
+		TCkey: tc, TCsc: tcsc, Opened: r.opened, CkKey: r.ckKey, CkSc: r.ckSc, Stored: r.stored, Pred: c.Pred, DD: true,
+		Cok: r.cok || r.out != "accepted"})
 	d.n++
 	d.stats[r.out]++
 	d.liveObserve(c, pk, p, m, off, bit, val, r)
@@ -697,21 +746,29 @@ func (d *driver) liveObserve(c tcase, pk int, p *packet, m []byte, off, bit, val
 	if c.Kind == "swapcookie" {
 		tcsc = 2
 	}
+	// the listener issues one cookie per cookie / placeholder field it counted: seen in its reply
+	liveCok := true
+	if replied {
+		var x result
+		if safely(func() { d.w.clientRecv(bytes.Clone(reply), d.w.sess[tcsc].s2c, p.uid, nil, &x) }) == nil && x.out == "accepted" {
+			liveCok = x.stored == c.Nf
+		}
+	}
 	// The listener does not show which cookie it opened (ck_* unobserved); what its reply is worth is
 	// observed below through the real client path.
 	d.out.Emit(rec{Role: "listener", Nf: c.Nf, Kind: c.Kind, Region: c.Region, Fi: c.Fi, Sub: c.Sub, Pk: pk, Off: off, Bit: bit, Val: val,
 		Out: out, Why: "live", Touched: touched(p, m), Key: p.keyOK, Dir: p.dirOK, Uid: uidIntact(p, m),
-		TCkey: p.tckey, TCsc: tcsc, Pred: c.Pred, DD: true})
+		TCkey: p.tckey, TCsc: tcsc, Pred: c.Pred, DD: true, Cok: liveCok})
 	d.n++
 	d.stats["live"]++
 	if replied && c.Kind == "none" {
 		// the listener's reply through the real client path
-		rp := &packet{role: "resp", nf: c.Nf, kind: "none", b: reply, uid: p.uid, keyOK: true, dirOK: true, tckey: 101, tcsc: 1}
+		rp := &packet{role: "resp", nf: c.Nf, kind: "none", b: reply, uid: p.uid, keyOK: true, dirOK: true, tckey: 101, tcsc: 1, sealed: nil}
 		cr := d.w.receive(rp, reply)
 		d.out.Emit(rec{Role: "resp", Nf: c.Nf, Kind: "none", Region: "-", Sub: "-", Pk: pk, Off: -1, Bit: -1, Val: -1,
 			Out: cr.out, Why: "live-reply", Touched: []string{}, Key: true, Dir: true,
 			Uid: len(reply) >= 52+uidLen && bytes.Equal(reply[52:52+uidLen], p.uid),
-			TCkey: 101, TCsc: 1, Stored: cr.stored, Pred: []string{"accepted"}, DD: true})
+			TCkey: 101, TCsc: 1, Stored: cr.stored, Pred: []string{"accepted"}, DD: true, Cok: cr.out != "accepted" || cr.stored == c.Nf})
 		d.n++
 		d.stats["live-reply"]++
 	}
@@ -745,6 +802,35 @@ func (d *driver) runCase(c tcase, pk int, p *packet, allBits bool) {
 	switch c.Kind {
 	case "none", "swapkey", "swapdir", "replay", "foreignkey":
 		d.observe(c, pk, p, p.b, -1, -1, -1)
+	case "appenduid", "replay+appenduid", "appendcookie", "replay+appendcookie":
+		// whole extension fields after the authenticator (of a genuine packet / of a genuine response to another request)
+		var bodies [][]byte
+		typ := 0x104
+		if c.Kind == "appenduid" || c.Kind == "replay+appenduid" {
+			id := w.uid2
+			if c.Role == "resp" {
+				id = p.uid // the id of the client's outstanding request, readable in its request
+			}
+			bodies = [][]byte{id}
+		} else {
+			typ = 0x204
+			bodies = [][]byte{w.sealCookie(w.sess[2], w.provKey), w.sealCookie(w.sess[1], w.provKey)}
+		}
+		for i, body := range bodies {
+			m := bytes.Clone(p.b)
+			m = binary.BigEndian.AppendUint16(m, uint16(typ))
+			m = binary.BigEndian.AppendUint16(m, uint16(4+len(body)))
+			m = append(m, body...)
+			d.observe(c, pk, p, m, len(p.b), -1, i)
+			if typ == 0x204 {
+				// and twice the field / a placeholder of the same size
+				m2 := append(bytes.Clone(m), m[len(p.b):]...)
+				d.observe(c, pk, p, m2, len(p.b), -1, 10+i)
+				m3 := bytes.Clone(m)
+				binary.BigEndian.PutUint16(m3[len(p.b):], 0x304)
+				d.observe(c, pk, p, m3, len(p.b), -1, 20+i)
+			}
+		}
 	case "flip":
 		for _, s := range p.lay {
 			if s.region != c.Region || s.fi != c.Fi || s.sub != c.Sub {
@@ -859,17 +945,24 @@ func TestC10(t *testing.T) {
 		}
 		// the observation about ExportKeys itself
 		out.Emit(rec{Role: "export", Nf: 1, Kind: "export", Region: "-", Sub: "-", Pk: pk, Off: -1, Bit: -1, Val: -1, Out: "rejected",
-			Why: "-", Touched: []string{}, Key: true, Dir: true, Uid: true, Pred: []string{"rejected"}, DD: dd})
+			Why: "-", Touched: []string{}, Key: true, Dir: true, Uid: true, Pred: []string{"rejected"}, DD: dd, Cok: true})
 		d.n++
 		for _, c := range cases {
 			p := w.build(c.Role, c.Nf, senderKind(c.Kind))
+			if p == nil {
+				out.Emit(rec{Role: "skip", Nf: c.Nf, Kind: c.Kind, Region: c.Region, Fi: c.Fi, Sub: c.Sub, Pk: pk, Off: -1, Bit: -1, Val: -1,
+					Out: "rejected", Why: c.Role, Touched: []string{}, Pred: c.Pred, DD: true, Cok: true})
+				continue
+			}
 			reps := 1
 			if c.Kind == "none" {
 				reps = nplain // fresh nonces, uids and cookies each time
 			}
 			for i := 0; i < reps; i++ {
 				if i > 0 {
-					p = w.build(c.Role, c.Nf, senderKind(c.Kind))
+					if p = w.build(c.Role, c.Nf, senderKind(c.Kind)); p == nil {
+						break
+					}
 				}
 				d.runCase(c, pk, p, vio.Thorough())
 			}
@@ -887,6 +980,8 @@ func senderKind(k string) string {
 	switch k {
 	case "swapkey", "swapdir", "replay", "foreignkey":
 		return k
+	case "replay+appenduid", "replay+appendcookie":
+		return "replay"
 	}
 	return "none"
 }
